@@ -399,6 +399,42 @@ func SpecMatch(pattern string, hasWild bool, s string) bool {
 //@   safety[C15]
 //@   loop 1 invariant (rs.query == "" ==> rs.e.base == nil) && (rs.query != "" ==> !has(rs.e.queries, rs.query))
 
+// --- query events (C13) --------------------------------------------------------------------
+
+//@ func (*EventSubscription).enqueueUnlock
+//@   requires e != nil && e.cache != nil
+//@   defers f
+//@   resolves[C13] f exactly-once
+//@   ensures[C13] len(e.locks) == old(len(e.locks)) + 1 && e.locks[len(e.locks)-1] == f
+//@   assigns e.locks, elems(e.locks)
+//@   safety[C15]
+
+// lockEvents(n): with n > 0 the entry is locked with capacity exactly n.
+//@ func (*EventSubscription).lockEvents
+//@   requires e != nil
+//@   ensures[C13] locks > 0 ==> e.locks != nil && len(e.locks) == 0 && cap(e.locks) == locks
+//@   ensures[C13] locks <= 0 ==> e.locks == old(e.locks)
+//@   assigns e.locks
+//@   safety[C15]
+
+// handleQueryEvent: without cached queries, with an undecodable payload or without a subject
+// nothing happens and nothing is locked; otherwise the lock capacity equals the number of cached
+// queries and exactly that many unlock promises are made: one query request to the event's
+// subject for every loaded query, one immediate unlock for every query still being loaded.
+//@ func (*EventSubscription).handleQueryEvent
+//@   requires e != nil && e.cache != nil && e.cache.mq != nil
+//@   assumes predEventSubOK(e)
+//@   ensures[C13] old(card(e.queries)) == 0 ==> e.locks == old(e.locks) && callcount("SendRequest") == old(callcount("SendRequest")) && spawncount() == old(spawncount())
+//@   ensures[C13] callcount("lockEvents") > old(callcount("lockEvents")) ==>
+//@       (callcount("SendRequest") - old(callcount("SendRequest"))) + (spawncount() - old(spawncount())) == old(card(e.queries))
+//@   ensures[C13] callcount("lockEvents") == old(callcount("lockEvents")) ==> callcount("SendRequest") == old(callcount("SendRequest")) && spawncount() == old(spawncount())
+//@   assert[C13] e.lockEvents#1: arg0 == card(e.queries) && arg0 > 0
+//@   assert[C13] e.cache.mq.SendRequest#1: arg0 == qe.Subject && rs.state > stateRequested
+//@   safety[C15]
+//@   loop 1 invariant (callcount("SendRequest") - old(callcount("SendRequest"))) + (spawncount() - old(spawncount())) == iters1
+//@   loop 1 invariant callcount("lockEvents") == old(callcount("lockEvents")) + 1 && e.queries == old(e.queries) && card(e.queries) == old(card(e.queries))
+//@   loop 1 invariant qe != nil && predEventSubOK(e)
+
 // --- system reset re-fetch (C12, C03, C19) --------------------------------------------
 
 //@ func (*ResourceSubscription).processResetGetResponse
